@@ -151,3 +151,19 @@ def site(fn, what):
 
 def failure_returns(fn, prog, call_node):
     return absint.return_values_after_failure(fn, prog, call_node)
+
+
+def loop_head(fn, node):
+    """block id of the innermost loop whose body contains node (None if not in a loop)"""
+    best, head = None, None
+    for hb, b in fn.blocks.items():
+        t = b.get("t")
+        if not t or t.get("k") not in ("for", "while", "do"):
+            continue
+        if not b.get("s") or b["s"][0] is None or b["s"][0] < 0:
+            continue
+        body = fn.reach([fn.node(b["s"][0], 0)], avoid=[fn.block_end(hb)])
+        if node in body:
+            if best is None or len(body) < best:
+                best, head = len(body), hb
+    return head
